@@ -1,0 +1,6 @@
+//go:build !verif
+
+package bondgo
+
+// verifYield is a verification hook; without the build tag `verif` it does nothing.
+func verifYield(site int) {}
